@@ -51,6 +51,8 @@ class Parser:
                 try:
                     token = f(expr, context)
                     token.ast(tokens, stack, builder)
+                    if not stack:  # The implicit outer parenthesis got closed.
+                        raise ParenthesesError()
                     expr = expr[token.end_match:]
                     break
                 except TokenError:
